@@ -139,6 +139,100 @@ func checkTrie(rp *reporter, idx int) {
 			}
 		}
 	}
+	// the trie object lives on: after the proofs above it is modified (overwrites, deletions - also
+	// of a child of the root -, re-insertion of a deleted key with another value, emptying and
+	// refilling) and hashed again, once or twice; proofs taken from the SAME object afterwards must
+	// verify against the new root and establish the new values (a prover must not answer from
+	// anything it remembered from before the update)
+	if len(c.Items) > 0 && !c.Poseidon {
+		for _, im := range impls {
+			mrng := lib.Rng("C10/long-lived", uint64(idx)) // the same updates on both implementations
+			cur := map[string]lib.KV{}
+			for _, it := range c.Items {
+				cur[it.K.String()] = it
+			}
+			okImpl := true
+			for round := 0; round < 1+mrng.IntN(2) && okImpl; round++ {
+				sorted := lib.SortedKVs(cur)
+				var touched []*big.Int
+				write := func(k *big.Int, v *felt.Felt) {
+					if err := im.put(lib.FeltOfBig(k), v); err != nil {
+						rp.viol(im.name+":update-error:long-lived", idx, err.Error(), nil)
+						okImpl = false
+						return
+					}
+					if v.IsZero() {
+						delete(cur, k.String())
+					} else {
+						cur[k.String()] = lib.KV{K: k, V: v}
+					}
+					touched = append(touched, k)
+				}
+				switch mode := mrng.IntN(5); {
+				case mode == 0 && len(sorted) > 0:
+					// delete one key and write it back with another value
+					k := sorted[mrng.IntN(len(sorted))].K
+					write(k, new(felt.Felt))
+					if okImpl && im.rehash() != nil {
+						okImpl = false
+					}
+					write(k, lib.F(0x5000+uint64(mrng.IntN(1<<16))))
+				case mode == 1 && len(sorted) > 0:
+					// empty the trie, then refill part of it with new values
+					for _, it := range sorted {
+						write(it.K, new(felt.Felt))
+					}
+					if okImpl && im.rehash() != nil {
+						okImpl = false
+					}
+					for i, it := range sorted {
+						if i%2 == 0 {
+							write(it.K, lib.F(0x6000+uint64(mrng.IntN(1<<16))))
+						}
+					}
+				default:
+					// first and last key (children of the top-most branching), random others
+					for i := 0; i < 1+mrng.IntN(4) && len(sorted) > 0; i++ {
+						k := sorted[[]int{0, len(sorted) - 1, mrng.IntN(len(sorted))}[mrng.IntN(3)]].K
+						switch mrng.IntN(3) {
+						case 0:
+							write(k, new(felt.Felt))
+						default:
+							write(k, lib.F(0x7000+uint64(mrng.IntN(1<<16))))
+						}
+					}
+					for i := 0; i < mrng.IntN(3); i++ {
+						write(randFelt(mrng).BigInt(new(big.Int)), lib.F(0x8000+uint64(mrng.IntN(1<<16))))
+					}
+				}
+				if !okImpl {
+					break
+				}
+				if err := im.rehash(); err != nil {
+					rp.viol(im.name+":hash-error:long-lived", idx, err.Error(), nil)
+					break
+				}
+				c2 := c
+				c2.Items = lib.SortedKVs(cur)
+				want2 := lib.RefRoot(c2.Items, height, c.hashFn())
+				r.Eval(1)
+				if !want2.Equal(&im.root) {
+					rp.viol(im.name+":root-mismatch:long-lived-trie-after-update", idx, fmt.Sprintf("%s: root after updating the long-lived trie is %s, the leaf set commits to %s", im.name, im.root.String(), want2.String()), nil)
+					break
+				}
+				r.Count("membership.long_lived_trie_updates", 1)
+				ks := append([]*big.Int{}, touched...)
+				for _, q := range qs[:min(len(qs), 6)] {
+					ks = append(ks, q.k)
+				}
+				for _, k := range ks {
+					if _, ok := checkMembership(rp, idx, c2, im, k); ok {
+						r.Count("membership.proofs_after_update_of_long_lived_trie", 1)
+					}
+				}
+			}
+		}
+	}
 	if len(c.Items) > 0 {
 		r.Case(fmt.Sprintf("trie-p%v-n%d-%s", c.Poseidon, len(c.Items), want.String()))
 	}
